@@ -52,6 +52,9 @@ var vxLocShapes = [...]vxLocShape{
 	{"https://h.test/other", "https://h.test/other", false},
 	{"http://h.test:8080/other", "http://h.test:8080/other", false},
 	{"http://h.test.evil.test/other", "http://h.test.evil.test/other", false},
+	{"http://api.h.test/other", "http://api.h.test/other", false},
+	{"http://evilh.test/other", "http://evilh.test/other", false},
+	{"http://h.tes/other", "http://h.tes/other", false},
 	{"//evil.test/other", "http://evil.test/other", false},
 	{"http://[::1", "", false},
 }
